@@ -15,6 +15,7 @@ and that is the end of it.
 
 import json
 import collections
+import re
 import types
 
 import egsim  # noqa: F401
@@ -336,6 +337,11 @@ def xsnap(ex):
             except Exception as exc:  # pylint: disable=broad-except
                 d["rules!"] = type(exc).__name__
         d["attrs"] = {k: ex.norm(v) for k, v in sorted(public_attrs(obj).items())}
+        try:
+            # what the object says about itself (addresses and uids aside)
+            d["repr"] = re.sub(r"0x[0-9a-fA-F]+|\b[0-9a-f]{8}-[0-9a-f-]{27}\b|\b\d{20,}\b", "@", repr(obj))
+        except Exception as exc:  # pylint: disable=broad-except
+            d["repr"] = "!" + type(exc).__name__
     return snap
 
 
